@@ -176,3 +176,110 @@ func ruleSleepBounded(r *core.Reporter) {
 		r.Held("archive/no-sleep", 0, "the fetch goroutine does not sleep")
 	}
 }
+
+func init() {
+	register(&core.Rule{ID: "R-STOP-CANCEL-FIRST", Props: []string{"C03", "C12"}, Doc: "every component stop function that controler.stopPipeline calls and that cancels a context does so before it waits for anything: on the way from its entry to the first cancel call there is no loop, no WaitGroup.Wait, no sleep and no channel operation. A stop that first waits for the component to drain ('let run() hand over what it accepted') waits for consumers that stopPipeline has already stopped — it never reaches the cancel", Run: ruleStopCancelFirst})
+}
+
+func ruleStopCancelFirst(r *core.Reporter) {
+	p := r.P
+	sp := p.Func(rel(pkgCtl), "stopPipeline")
+	if sp == nil {
+		r.Undecided("controler.stopPipeline", "", "anchor not found")
+		return
+	}
+	r.Analysed(sp)
+	n := 0
+	seen := map[*ssa.Function]bool{}
+	allInstrs(sp, func(in ssa.Instruction) {
+		cc := ir.AsCall(in)
+		if cc == nil {
+			return
+		}
+		fn := cc.StaticCallee()
+		if fn == nil || !core.InModule(fn) || seen[fn] || fn.Blocks == nil {
+			return
+		}
+		seen[fn] = true
+		isCancel := func(x ssa.Instruction) bool {
+			c, ok := x.(*ssa.Call)
+			return ok && ir.TypeName(c.Call.Value.Type()) == "context.CancelFunc"
+		}
+		has := false
+		allInstrs(fn, func(x ssa.Instruction) {
+			if isCancel(x) {
+				has = true
+			}
+		})
+		if !has {
+			return
+		}
+		n++
+		r.Analysed(fn)
+		key := core.FuncName(fn) + "/cancel-first"
+		// every context cancel of the function is reached without waiting (a second cancel behind a drain loop is
+		// the same hang)
+		var cancels []ssa.Instruction
+		allInstrs(fn, func(x ssa.Instruction) {
+			if isCancel(x) {
+				cancels = append(cancels, x)
+			}
+		})
+		var bad ssa.Instruction
+		why := ""
+		var before ir.Result
+		for _, cx := range cancels {
+			cx := cx
+			isCancel = func(x ssa.Instruction) bool { return x == cx }
+			before = ir.Reach([]ir.Pt{ir.Entry(fn)}, ir.Opts{Stop: isCancel})
+			if !before.Stopped[cx] {
+				continue
+			}
+			for x := range before.Reached {
+				switch y := x.(type) {
+				case *ssa.Call:
+					switch {
+					case ir.IsCallTo(y, "(*sync.WaitGroup).Wait"):
+						bad, why = x, "waits on a WaitGroup"
+					case ir.IsCallTo(y, "time.Sleep"):
+						bad, why = x, "sleeps"
+					}
+				case *ssa.UnOp:
+					if y.Op == token.ARROW {
+						bad, why = x, "receives from a channel"
+					}
+				case *ssa.Send:
+					bad, why = x, "sends on a channel"
+				case *ssa.Select:
+					if y.Blocking {
+						bad, why = x, "blocks in a select"
+					}
+				}
+				if bad != nil {
+					break
+				}
+			}
+			if bad == nil {
+				// a loop before the cancel: some instruction before it reaches itself without passing the cancel
+				for x := range before.Reached {
+					if _, isIf := x.(*ssa.If); !isIf {
+						continue
+					}
+					if ir.Reach([]ir.Pt{ir.After(x)}, ir.Opts{Stop: isCancel}).Reached[x] {
+						bad, why = x, "loops (polls a condition)"
+						break
+					}
+				}
+			}
+			if bad != nil {
+				break
+			}
+		}
+		if bad != nil {
+			r.Violated(key, p.InstrPos(bad), "%s %s before it cancels the component's context: when what it waits for depends on a consumer that stopPipeline stopped earlier, the cancel is never reached and the stop hangs", core.FuncName(fn), why)
+		} else {
+			r.Held(key, 1, "cancel reached without waiting")
+		}
+	})
+	r.Floor("stop functions with a cancel", n, 4)
+}
